@@ -8,12 +8,19 @@ oracle: the property predicate evaluated inside harness.cpp on the real code (in
 import os, sys, importlib.util
 
 INLINE = ['HashSetInl', 'TreeSetInl']     # inline crew (checkVersion = false, stateless manager), stateful traits: ids = traits states
-NATIVE = INLINE + ['Array', 'ArrayIC', 'Seg', 'HashSet', 'HashMap', 'HashMulti', 'TreeSet', 'TreeMap', 'DataTable']
-WRAP = ['vec', 'set', 'mset', 'map', 'mmap', 'uset', 'umap', 'ummap']
-CREW_WRAP = ['set', 'mset', 'map', 'mmap', 'uset', 'umap', 'ummap']
-ARRAYS = ['Array', 'ArrayIC', 'Seg', 'vec']
+NATIVE = INLINE + ['Array', 'ArrayIC', 'Seg', 'HashSet', 'HashSetFast', 'HashSetOpen2', 'HashMap', 'HashMulti', 'TreeSet', 'TreeMap', 'DataTable']
+# native binaries per element category: N nothrow-move (ElemNtm), Nt trivially relocatable (ElemTriv, manager with Reallocate),
+# Nc copy-only (ElemCpy), Ns self-move-hostile (ElemSmh); the category binaries run a reduced kind set
+NATIVE_TOKENS = ['N', 'Nt', 'Nc', 'Ns']
+CATEGORY_KINDS = ['Array', 'ArrayIC', 'Seg', 'HashSet', 'HashSetFast', 'HashMulti', 'TreeSet', 'DataTable']
+ELEMCAT = {'N': 1, 'Nt': 0, 'Nc': 2, 'Ns': 4}
+WRAP = ['vec', 'vecic', 'set', 'mset', 'map', 'mmap', 'uset', 'useto', 'umap', 'ummap']
+CREW_WRAP = ['set', 'mset', 'map', 'mmap', 'uset', 'useto', 'umap', 'ummap']
+ARRAYS = ['Array', 'ArrayIC', 'Seg', 'vec', 'vecic']
 TRAITS = [str(k) for k in range(8)] + ['8'] + [str(k) for k in range(16, 24)]
 
+# quick tier: 2 of the 8 throwing-assignment allocator binaries (vector only); all of them in the thorough tier
+QUICK_SKIP = ['17', '18', '19', '20', '22', '23']
 KEY_D12 = 'stdish-swap-moved-from-assert'
 KEY_D13 = 'stdish-move-assign-into-moved-from-nonpropagating'
 # follow-ups that USE a moved-from object (as a source, for insertion, lookup, initializer-list assignment): outside the claim
@@ -27,7 +34,7 @@ def _load_run_impl(ctx):
 
 def tr_bits(tr):
     """(pocca, pocma, pocs, empty) of a traits token"""
-    if tr == 'N': return (True, True, True, False)
+    if tr[0] == 'N': return (True, True, True, False)
     k = int(tr)
     if k == 8: return (False, True, False, True)
     return (bool(k & 4), bool(k & 2), bool(k & 1), False)
@@ -35,22 +42,25 @@ def tr_bits(tr):
 
 def states_for(kind, role):
     if kind in ('Array', 'Seg', 'vec'):
-        return ['e', 'n1', 'n5', 'n40', 'c9'] if role == 's' else ['e', 'n3', 'c9']
-    if kind == 'ArrayIC':
+        return ['e', 'n1', 'n5', 'n40', 'c9', 'n200'] if role == 's' else ['e', 'n3', 'c9']
+    if kind in ('ArrayIC', 'vecic'):
         return ['e', 'i1', 'i3', 'i4', 'n5', 'n40', 'c9'] if role == 's' else ['e', 'i2', 'n9']
+    if kind in ('HashSetFast', 'HashSetOpen2', 'useto'):
+        # other bucket classes (other capacities): sizes across several growth steps
+        return ['e', 'n1', 'n10', 'c10', 'n100', 'n600'] if role == 's' else ['e', 'n3', 'n40', 'c5']
     if kind == 'HashSetInl':
         return ['e', 'n1', 'n10', 'c10', 'n100'] if role == 's' else ['e', 'n3', 'n40', 'c5']
     if kind == 'TreeSetInl':
         return ['e', 'n1', 'n7', 'c10', 'd60'] if role == 's' else ['e', 'n3', 'd40']
     if kind in ('HashSet', 'HashMap', 'uset', 'umap'):
         # default bucket: capacity 32, 128, 512 -> the 33rd / 129th insertion grows
-        return ['e', 'n1', 'n10', 'c10', 'n100', 'g33', 'h33', 'g129', 'h129'] if role == 's' else ['e', 'n3', 'h33', 'c5']
+        return ['e', 'n1', 'n10', 'c10', 'n100', 'g33', 'h33', 'g129', 'h129', 'n600'] if role == 's' else ['e', 'n3', 'h33', 'c5']
     if kind in ('TreeSet', 'TreeMap'):
         return ['e', 'n1', 'n7', 'c10', 'd60', 'd300'] if role == 's' else ['e', 'n3', 'd40']
     if kind in ('set', 'mset', 'map', 'mmap'):
-        return ['e', 'n1', 'n7', 'c10', 'd700'] if role == 's' else ['e', 'n3', 'd100']
+        return ['e', 'n1', 'n7', 'c10', 'd700'] + (['w20'] if kind in ('mset', 'mmap') else []) if role == 's' else ['e', 'n3', 'd100']
     if kind in ('HashMulti', 'ummap'):
-        return ['e', 'n1', 'n6', 'c6', 'v10', 'v3', 'n50'] if role == 's' else ['e', 'n3', 'v6']
+        return ['e', 'n1', 'n6', 'c6', 'v10', 'v3', 'n50', 'w20'] if role == 's' else ['e', 'n3', 'v6']
     if kind == 'DataTable':
         return ['e', 'n1', 'n6', 'c6', 'f6', 'n50'] if role == 's' else ['e', 'n3', 'f5']
     raise ValueError(kind)
@@ -61,7 +71,7 @@ def source_moved_from_by_std(tr, kind, op, sid, tid, aid):
     if kind in ARRAYS or kind in INLINE: return False          # an inline crew has no null state
     ca, ma, sw, em = tr_bits(tr)
     if op == 'movec': return True
-    if op == 'movea': return tr == 'N' or em or ma or sid == tid
+    if op == 'movea': return tr[0] == 'N' or em or ma or sid == tid
     if op == 'moveca': return em or sid == aid
     return False
 
@@ -87,7 +97,7 @@ def expected_ids_by_std(tr, kind, op, sid, tid, aid):
 
 def swap_defined(tr, a, b):
     ca, ma, sw, em = tr_bits(tr)
-    return tr == 'N' or em or sw or a == b
+    return tr[0] == 'N' or em or sw or a == b
 
 
 def gen_cases(ctx, scale):
@@ -112,10 +122,15 @@ def gen_cases(ctx, scale):
             p.append('reuse')
         return p
 
-    for fam, kinds, trs in (('N', NATIVE, ['N']), ('W', WRAP, TRAITS)):
+    only = os.environ.get('C14_TRAITS')          # aimed runs (mutant re-checks): restrict to some binaries, e.g. C14_TRAITS=N,2
+    only = set(only.split(',')) if only else None
+    for fam, kinds, trs in (('N', NATIVE, NATIVE_TOKENS), ('W', WRAP, TRAITS)):
         for tr in trs:
+            if only is not None and tr not in only: continue
+            if scale == 1 and tr in QUICK_SKIP: continue
             for kind in kinds:
-                if int(tr if tr != 'N' else 0) >= 16 and kind != 'vec': continue
+                if tr[0] != 'N' and int(tr) >= 16 and kind not in ('vec', 'vecic'): continue
+                if tr in ('Nt', 'Nc', 'Ns') and kind not in CATEGORY_KINDS: continue
                 ops = ['copyc', 'copyca', 'movec', 'copya', 'movea', 'swap', 'selfcopya', 'selfmovea', 'selfswap', 'none']
                 if fam == 'W': ops.append('moveca')
                 if kind == 'DataTable': ops.remove('copyca')
@@ -149,10 +164,12 @@ def gen_cases(ctx, scale):
     # (fast path: trees joined, NodeParams::MergeFrom hands the pool buffers over) and with an unequal one (element-wise);
     # then either the source dies first (post none) or it is cleared and outlives the target's use (post clear)
     for kind in ('TreeSet', 'TreeMap'):
+        if only is not None and 'N' not in only: break
         for ss in states_for(kind, 's'):
             for tsx in ('e', 'c10', 'n3', 'd40', 'n1'):
                 for ids in ((1, 1, 1), (5, 5, 7), (1, 2, 3)):
-                    for post in ('none', 'clear'):
+                    # reuse = the source is refilled after the merge (its pools gave their buffers away) and outlives the target
+                    for post in ('none', 'clear', 'reuse'):
                         add('N', kind, 'merge', ss, tsx, ids, post)
     # dedupe keeping order
     seen = set(); out = []
@@ -212,19 +229,28 @@ def build_binaries(ctx):
     stamp = source_stamp(ctx)
     suffix = '.san' if ctx.tier == 'thorough' else ''
     jobs = []
-    for tr in ['N'] + TRAITS:
+    only = os.environ.get('C14_TRAITS')
+    tokens = [t for t in NATIVE_TOKENS + TRAITS if (not only or t in only.split(',')) and not (ctx.quick() and t in QUICK_SKIP)]
+    for tr in tokens:
         exe = 'harness_' + tr
         sf = os.path.join(ctx.build, exe + suffix + '.stamp')
         if os.path.exists(os.path.join(ctx.build, exe + suffix)) and os.path.exists(sf) and open(sf).read() == stamp:
             continue
         if os.path.exists(sf): os.remove(sf)
-        jobs.append(('harness.cpp', exe, ['-O0', '-DNATIVE'] if tr == 'N' else ['-O0', '-DTRAITS=' + tr]))
-    res = ctx.cxx_many(jobs) if jobs else {}
+        jobs.append(('harness.cpp', exe, ['-O0', '-DNATIVE', '-DELEMCAT=%d' % ELEMCAT[tr]] if tr[0] == 'N' else ['-O0', '-DTRAITS=' + tr]))
+    res = {}
+    if jobs:
+        # at most 4 compilers at a time (shared machine)
+        import concurrent.futures as cf
+        with cf.ThreadPoolExecutor(max_workers=4) as ex:
+            futs = {ex.submit(ctx.cxx, src, exe, fl, None, 3000): exe for (src, exe, fl) in jobs}
+            for fu in cf.as_completed(futs):
+                res[futs[fu]] = fu.result()
     bad = [k for k, v in res.items() if v is None]
     for k, v in res.items():
         if v is not None:
             open(v + '.stamp', 'w').write(stamp)
-    ctx.coverage['harness_binaries'] = {'rebuilt': len(jobs), 'reused': 1 + len(TRAITS) - len(jobs)}
+    ctx.coverage['harness_binaries'] = {'rebuilt': len(jobs), 'reused': len(tokens) - len(jobs)}
     ctx.stage('build-harness', not bad, ('failed: %s\n' % bad) + getattr(ctx, 'last_cxx_error', '') if bad else '')
     return not bad
 
@@ -265,7 +291,7 @@ def est_state(kind, ss):
     """state whose freshly built object has the structure an element-wise move produces: the source's items inserted
     in traversal (ascending) order into an empty container"""
     if kind in ('set', 'map'): return ss if ss[0] in 'nd' else 'e'
-    if kind in ('mset', 'mmap'): return ('r' + ss[1:]) if ss[0] in 'nd' else 'e'
+    if kind in ('mset', 'mmap'): return ('r' + ss[1:]) if ss[0] in 'nd' else (ss if ss[0] == 'w' else 'e')
     return None
 
 
@@ -278,7 +304,7 @@ def attach_structure_tokens(ctx, cases):
     suffix = '.san' if ctx.tier == 'thorough' else ''
     keys = {}
     def key_of(tr, kind, ss, ts, sid, tid):
-        b = tr if tr == 'N' else '0'
+        b = tr if tr[0] == 'N' else '0'
         # the shape of an inline-crew tree depends on its comparator's direction (= its id)
         return (b, kind, ss, ts, sid, tid) if kind in INLINE else (b, kind, ss, ts, 1, 1)
     for c in cases:
@@ -330,6 +356,48 @@ def replay(ctx, rp):
     print('property holds on this case'); return 0
 
 
+def measure_distribution(cases, lines):
+    """what this run REALLY exercised (measured from the case lines and the harness output, not planned)"""
+    import collections, re
+    C = collections.Counter
+    kind, op, post, trait, state, cat, events = C(), C(), C(), C(), C(), C(), C()
+    catname = {'N': 'nothrow-move', 'Nt': 'trivially-relocatable+realloc-manager', 'Nc': 'copy-only', 'Ns': 'self-move-hostile'}
+    for c, l in zip(cases, lines):
+        f = c.split()
+        tr, kd, o, ss, ts, sid, tid, aid, po = f[:9]
+        kind[kd] += 1; op[o] += 1; post[po] += 1; trait[tr] += 1; state[ss[0] + ('' if ss[0] in 'e' else '<k>')] += 1
+        cat[catname.get(tr, 'nothrow-move (wrappers)')] += 1
+        tie = l.split(' | ')[0]; orc = l.split(' | ')[1] if ' | ' in l else ''
+        if orc.endswith(' nt'): events['harness confirmed an unusual internal state'] += 1
+        if tie == 'abort': events['abort (known finding / outside claim / std precondition)'] += 1
+        sst = f[9] if len(f) > 9 else ''
+        if sst.startswith('H') and '.' in sst: events['source is a multi-generation hash table'] += 1
+        if ss[0] == 'g' and orc.endswith(' nt'): events['source is an overloaded hash table (refused growth)'] += 1
+        if sst.startswith('T1:'):
+            depth = max([int(x.split('.')[0]) for x in sst[3:].split(',') if x] or [0])
+            if depth >= 2: events['source tree has >= 3 levels'] += 1
+            if depth >= 3: events['source tree has >= 4 levels'] += 1
+        if sst.startswith('M'):
+            m = re.match(r'M(\d+):(\d+)\.(\d+)', sst)
+            if m and int(m.group(3)) > 0: events['source multimap has value-less keys'] += 1
+        if ss[0] == 'w': events['one key with 20 values'] += 1
+        if sst.startswith('D'):
+            m = re.match(r'D(\d+)\.(\d+)', sst)
+            if m and int(m.group(2)) > 0: events['source table has raws in freeRaws'] += 1
+        if ss[0] == 'i': events['source array in its internal buffer'] += 1
+        if ss in ('n600',): events['hash source beyond 3 growth steps (600 items)'] += 1
+        if ss[0] == 'c': events['source emptied but holding capacity'] += 1
+        if o in ('movea', 'moveca') and ' mv=1' in tie and kd in CREW_WRAP: events['element-wise move (unequal non-propagating allocators)'] += 1
+        if o in ('movea', 'moveca', 'movec') and ' S=null' in tie: events['steal: source left moved-from (null crew)'] += 1
+        if o == 'merge':
+            if ' ts=?' in tie: events['merge into non-empty / unequal manager (' + ('fast join' if sid == tid else 'element-wise') + ')'] += 1
+            else: events['merge swap path or empty source'] += 1
+        if o == 'swap' and (int(sid) + int(aid)) % 2: events['swap through the ADL friend'] += 1
+        if sid != tid: events['unequal manager / allocator / traits ids'] += 1
+    return {'kind': dict(kind), 'operation': dict(op), 'follow_up': dict(post), 'traits_token': dict(trait), 'source_state_class': dict(state),
+            'element_category': dict(cat), 'events': dict(events)}
+
+
 def run(ctx):
     scale = 1 if ctx.quick() else 4
     ctx.trusted += ['extraction: ExtrOcamlBasic only (no Extract Constant), OCaml 4.13.1, zarith for decimal I/O only',
@@ -376,7 +444,7 @@ def run(ctx):
     known = [b for b in bad if b[3] is not None]
     ctx.coverage['known_finding_cases'] = {k: sum(1 for b in known if b[3] == k) for k in (KEY_D12, KEY_D13)}
     ctx.coverage['precondition_violating_swaps_skipped'] = sum(1 for c in cases if precondition_violated(c))
-    ctx.coverage['input_distribution'] = {k: sum(1 for c in cases if c.split()[1] == k) for k in NATIVE + WRAP}
+    ctx.coverage['input_distribution'] = measure_distribution(cases, impl_lines)
     ctx.coverage['trait_combinations'] = sorted(set(c.split()[0] for c in cases))
     for c in cases[::max(1, len(cases) // 7)][:7]:
         ctx.add_sample(c)
